@@ -618,6 +618,28 @@ static void engine_op(int argc, char **argv)
     tickit_window_set_geometry(W[i], (TickitRect){ .top = A(2), .left = A(3), .lines = A(4), .cols = A(5) });
     obs("ok"); dump(); return;
   }
+  if(strcmp(op, "kids") == 0 && argc == 3) {
+    /* tickit_window_get_children(win, array of exactly N slots, N): N below, at and above the number of children. The
+     * array is heap memory of N pointers (one more byte is a redzone hit); for N = 0 one slot is handed out, the length
+     * given is 0 and the slot must stay as it was */
+    int i = A(1); long n = atol(argv[2]);
+    if(!usable(i) || n < 0 || n > 64) { obs("skip"); dump(); return; }
+    static int guardobj;
+    TickitWindow *guard = (TickitWindow *)&guardobj;
+    size_t have = n ? (size_t)n : 1;
+    TickitWindow **cs = malloc(have * sizeof *cs);
+    for(size_t k = 0; k < have; k++) cs[k] = guard;
+    size_t ret = tickit_window_get_children(W[i], cs, (size_t)n);
+    obs("ret=%zu count=%zu slots=", ret, tickit_window_children(W[i]));
+    for(long k = 0; k < n; k++) {
+      if(cs[k] == guard) obs("%s-", k ? "," : "");
+      else { int j = widx(cs[k]); if(j < 0) obs("%s?", k ? "," : ""); else obs("%s%d", k ? "," : "", j); }
+    }
+    if(!n) obs("-");
+    obs(" behind=%s", (n == 0 && cs[0] != guard) ? "canary-overwritten" : "untouched");
+    free(cs);
+    dump(); return;
+  }
   if(strcmp(op, "focus") == 0) {
     int i = A(1);
     if(!usable(i)) { obs("skip"); dump(); return; }
